@@ -1,0 +1,38 @@
+//go:build verif
+
+package vm
+
+// Lemma functions for property C14. They call the real encoder and the real
+// decoders; vcgo verifies them from the callees' contracts only. `prefix` is an
+// arbitrary earlier part of a program: the new line is appended to it and the
+// decoder is started where the prefix ends.
+
+func lemmaRoundTripSym(prefix []byte, op uint16, a string) (o Opcode, x string, r []byte, err error) {
+	l := NewLine(prefix, op, []string{a}, nil, nil)
+	o, r, err = opSplit(l[len(prefix):])
+	if err != nil {
+		return
+	}
+	x, r, err = parseSym(r)
+	return
+}
+
+func lemmaRoundTripTwoSym(prefix []byte, op uint16, a string, b string) (o Opcode, x string, y string, r []byte, err error) {
+	l := NewLine(prefix, op, []string{a, b}, nil, nil)
+	o, r, err = opSplit(l[len(prefix):])
+	if err != nil {
+		return
+	}
+	x, y, r, err = parseTwoSym(r)
+	return
+}
+
+func lemmaRoundTripNoArg(prefix []byte, op uint16) (o Opcode, r []byte, err error) {
+	l := NewLine(prefix, op, nil, nil, nil)
+	o, r, err = opSplit(l[len(prefix):])
+	if err != nil {
+		return
+	}
+	r, err = parseNoArg(r)
+	return
+}
